@@ -365,4 +365,260 @@ theorem checkOutRows_some {ss : List Str} {p : Cols → Bool} {rows : List Row}
           rw [if_neg hne, m0]
         · simp [k0]
 
+/-! ### add_many -/
+
+theorem le_maxId {rows : List Row} {r : Row} (h : r ∈ rows) : r.id ≤ maxId rows := by
+  induction rows with
+  | nil => cases h
+  | cons a t ih =>
+    simp only [maxId]
+    rcases List.mem_cons.mp h with e | e
+    · subst e; omega
+    · have := ih e; omega
+
+theorem maxId_append (a b : List Row) : maxId (a ++ b) = max (maxId a) (maxId b) := by
+  induction a with
+  | nil => simp [maxId]
+  | cons x t ih => simp only [List.cons_append, maxId, ih]; omega
+
+/-- every string an entry refers to was interned, except possibly an empty parent / root -/
+def EntryOk (ss : List Str) (e : Entry) : Prop :=
+  e.url ∈ ss ∧ (∀ p, e.parentParam = some p → p ≠ [] → p ∈ ss) ∧
+    (∀ p, e.rootParam = some p → p ≠ [] → p ∈ ss)
+
+theorem resolve_known {ss : List Str} {p : Option Str}
+    (h : ∀ q, p = some q → q ≠ [] → q ∈ ss) :
+    (p.bind (idOf ss)).bind (strOf ss) = p.bind (known (decide ([] ∈ ss))) := by
+  cases p with
+  | none => rfl
+  | some q =>
+    simp only [Option.bind_some]
+    by_cases hq : q ∈ ss
+    · obtain ⟨i, hi⟩ := idOf_of_mem hq
+      rw [hi]
+      simp only [Option.bind_some, strOf, idOf_some_get hi, known]
+      by_cases e : q = []
+      · subst e; simp [hq]
+      · simp [e]
+    · have e : q = [] := Classical.byContradiction (fun ne => hq (h q rfl ne))
+      subst e
+      rw [idOf_none_iff.mpr hq]
+      simp [known, hq]
+
+theorem insertRow_spec {ss : List Str} {rows : List Row} (h : KInv ss (rows.map Row.key))
+    {e : Entry} (he : EntryOk ss e) :
+    (insertRow ss rows e).map (res ss) = sInsert (decide ([] ∈ ss)) (rows.map (res ss)) e
+      ∧ KInv ss ((insertRow ss rows e).map Row.key)
+      ∧ ∃ new, insertRow ss rows e = rows ++ new ∧ ∀ r ∈ new, maxId rows < r.id := by
+  obtain ⟨sid, hsid⟩ := idOf_of_mem he.1
+  have hany : rows.any (fun r => r.urlId == sid)
+      = (rows.map (res ss)).any (fun r => r.url == e.url) := by
+    rw [Bool.eq_iff_iff]
+    simp only [List.any_eq_true, List.mem_map, beq_iff_eq]
+    constructor
+    · rintro ⟨r, hr, e1⟩
+      refine ⟨res ss r, ⟨r, hr, rfl⟩, ?_⟩
+      exact (match_url h.nodup (h.rowOk hr) e.url).mp (by rw [hsid, e1])
+    · rintro ⟨x, ⟨r, hr, rfl⟩, e1⟩
+      refine ⟨r, hr, ?_⟩
+      have := (match_url h.nodup (h.rowOk hr) e.url).mpr e1
+      rw [hsid] at this
+      exact Option.some.inj this
+  unfold insertRow sInsert
+  rw [hsid]
+  simp only
+  rw [← hany]
+  cases hc : rows.any (fun r => r.urlId == sid) with
+  | true =>
+    simp only [if_true]
+    exact ⟨by trivial, h, [], by simp, by simp⟩
+  | false =>
+    simp only [Bool.false_eq_true, if_false]
+    have hnone : ∀ r ∈ rows, r.urlId ≠ sid := by
+      intro r hr e1
+      have : rows.any (fun r => r.urlId == sid) = true :=
+        List.any_eq_true.mpr ⟨r, hr, by simp [e1]⟩
+      rw [hc] at this
+      cases this
+    have hget := idOf_some_get hsid
+    refine ⟨?_, ?_, _, rfl, ?_⟩
+    · rw [List.map_append, List.map_cons, List.map_nil]
+      congr 2
+      simp only [res, strOf, hget, Option.getD_some]
+      rw [resolve_known he.2.1, resolve_known he.2.2]
+    · rw [List.map_append, List.map_cons, List.map_nil]
+      refine ⟨h.nodup, ?_, ?_, ?_⟩
+      · intro k hk
+        rcases List.mem_append.mp hk with hk | hk
+        · exact h.ok k hk
+        · simp only [List.mem_singleton] at hk
+          subst hk
+          refine ⟨idOf_some_lt hsid, ?_, ?_⟩
+          · intro i hi
+            simp only [Row.key] at hi
+            cases hp : e.parentParam with
+            | none => simp [hp] at hi
+            | some q => simp [hp] at hi; exact idOf_some_lt hi
+          · intro i hi
+            simp only [Row.key] at hi
+            cases hp : e.rootParam with
+            | none => simp [hp] at hi
+            | some q => simp [hp] at hi; exact idOf_some_lt hi
+      · rw [List.pairwise_append]
+        refine ⟨h.uniq, by simp, ?_⟩
+        intro a ha b hb
+        simp only [List.mem_singleton] at hb
+        subst hb
+        obtain ⟨r, hr, rfl⟩ := List.mem_map.mp ha
+        exact hnone r hr
+      · rw [List.pairwise_append]
+        refine ⟨h.ids, by simp, ?_⟩
+        intro a ha b hb
+        simp only [List.mem_singleton] at hb
+        subst hb
+        obtain ⟨r, hr, rfl⟩ := List.mem_map.mp ha
+        have := le_maxId hr
+        simp only [Row.key]
+        omega
+    · intro r hr
+      simp only [List.mem_singleton] at hr
+      subst hr
+      simp
+
+theorem insertAll_spec {ss : List Str} (batch : List Entry) (hb : ∀ e ∈ batch, EntryOk ss e) :
+    ∀ rows : List Row, KInv ss (rows.map Row.key) →
+      (batch.foldl (insertRow ss) rows).map (res ss)
+          = batch.foldl (sInsert (decide ([] ∈ ss))) (rows.map (res ss))
+        ∧ KInv ss ((batch.foldl (insertRow ss) rows).map Row.key)
+        ∧ ∃ new, batch.foldl (insertRow ss) rows = rows ++ new ∧ ∀ r ∈ new, maxId rows < r.id := by
+  induction batch with
+  | nil => intro rows h; exact ⟨rfl, h, [], by simp, by simp⟩
+  | cons e t ih =>
+    intro rows h
+    obtain ⟨a1, k1, new1, e1, n1⟩ := insertRow_spec h (hb e (List.mem_cons_self ..))
+    obtain ⟨a2, k2, new2, e2, n2⟩ :=
+      ih (fun x hx => hb x (List.mem_cons_of_mem _ hx)) (insertRow ss rows e) k1
+    simp only [List.foldl_cons]
+    refine ⟨?_, k2, new1 ++ new2, ?_, ?_⟩
+    · rw [a2, a1]
+    · rw [e2, e1, List.append_assoc]
+    · intro r hr
+      rcases List.mem_append.mp hr with hr | hr
+      · exact n1 r hr
+      · have := n2 r hr
+        rw [e1, maxId_append] at this
+        omega
+
+theorem filterMap_eq_map {α β : Type} (f : α → Option β) (g : α → β) (l : List α)
+    (h : ∀ x ∈ l, f x = some (g x)) : l.filterMap f = l.map g := by
+  induction l with
+  | nil => rfl
+  | cons a t ih =>
+    rw [List.filterMap_cons, h a (List.mem_cons_self ..), List.map_cons,
+      ih (fun x hx => h x (List.mem_cons_of_mem _ hx))]
+
+theorem entryOk_internAll (ss : List Str) (batch : List Entry) :
+    ∀ e ∈ batch, EntryOk (internAll ss (batch.flatMap Entry.urlStrings)) e := by
+  intro e he
+  have sub : ∀ x ∈ e.urlStrings, x ∈ internAll ss (batch.flatMap Entry.urlStrings) := by
+    intro x hx
+    exact mem_internAll.mpr (Or.inr (List.mem_flatMap.mpr ⟨e, he, hx⟩))
+  refine ⟨sub _ (by simp [Entry.urlStrings]), ?_, ?_⟩
+  · intro p hp hne
+    apply sub
+    unfold Entry.parentParam at hp
+    unfold Entry.urlStrings
+    cases hpr : e.props with
+    | none => simp [hpr] at hp; simp [hp]
+    | some pr => simp [hpr] at hp; simp [hp, optL, hne]
+  · intro p hp hne
+    apply sub
+    unfold Entry.rootParam at hp
+    unfold Entry.urlStrings
+    cases hpr : e.props with
+    | none => simp [hpr] at hp; simp [hp]
+    | some pr => simp [hpr] at hp; simp [hp, optL, hne]
+
+theorem empty_mem_urlStrings (batch : List Entry) :
+    [] ∈ batch.flatMap Entry.urlStrings ↔ ∃ e ∈ batch, e.url = [] := by
+  simp only [List.mem_flatMap]
+  constructor
+  · rintro ⟨e, he, h⟩
+    refine ⟨e, he, ?_⟩
+    unfold Entry.urlStrings at h
+    cases hpr : e.props with
+    | none => simpa [hpr, eq_comm] using h
+    | some pr =>
+      simp only [hpr, List.mem_cons, List.mem_append, List.mem_filter] at h
+      rcases h with h | h | h
+      · exact h.symm
+      · simp at h
+      · simp at h
+  · rintro ⟨e, he, h⟩
+    exact ⟨e, he, by simp [Entry.urlStrings, h]⟩
+
+/-- `add_many` = keyed insert-if-absent, and reports exactly the inserted URLs -/
+theorem addMany_abs {t : Table} (h : Inv t) (batch : List Entry) :
+    abs (addMany t batch).1 = (sAddMany (abs t) batch).1
+      ∧ (addMany t batch).2 = (sAddMany (abs t) batch).2 ∧ Inv (addMany t batch).1 := by
+  unfold addMany sAddMany
+  by_cases h0 : batch.isEmpty = true
+  · simp only [h0, if_true]; exact ⟨by trivial, by trivial, h⟩
+  by_cases h1 : missingBind batch = true
+  · simp only [h0, h1, if_true, Bool.false_eq_true, if_false]; exact ⟨by trivial, by trivial, h⟩
+  simp only [h0, h1, Bool.false_eq_true, if_false]
+  obtain ⟨m, hm⟩ := internAll_eq t.strings (batch.flatMap Entry.urlStrings)
+  have hk : KInv (internAll t.strings (batch.flatMap Entry.urlStrings)) (t.rows.map Row.key) := by
+    refine ⟨internAll_nodup _ h.nodup, ?_, h.uniq, h.ids⟩
+    intro k hk'
+    rw [hm]
+    exact (h.ok k hk').append m
+  have hrows : t.rows.map (res (internAll t.strings (batch.flatMap Entry.urlStrings)))
+      = (abs t).rows := by
+    simp only [abs]
+    apply List.map_congr_left
+    intro r hr
+    rw [hm]
+    exact res_append (KInv.rowOk h hr) m
+  have hek : decide ([] ∈ internAll t.strings (batch.flatMap Entry.urlStrings))
+      = ((abs t).emptyKnown || batch.any (fun e => e.url == [])) := by
+    rw [Bool.eq_iff_iff]
+    simp only [abs, decide_eq_true_eq, Bool.or_eq_true, List.any_eq_true, beq_iff_eq,
+      mem_internAll, empty_mem_urlStrings]
+  obtain ⟨a1, k1, new, e1, n1⟩ :=
+    insertAll_spec batch (entryOk_internAll t.strings batch) t.rows hk
+  rw [hrows, hek] at a1
+  have hadded : ((batch.foldl (insertRow (internAll t.strings (batch.flatMap Entry.urlStrings)))
+        t.rows).filter (fun r => maxId t.rows < r.id)).filterMap
+        (fun r => strOf (internAll t.strings (batch.flatMap Entry.urlStrings)) r.urlId)
+      = ((batch.foldl (sInsert ((abs t).emptyKnown || batch.any (fun e => e.url == [])))
+          (abs t).rows).drop (abs t).rows.length).map (·.url) := by
+    rw [← a1, e1, List.filter_append]
+    have f1 : t.rows.filter (fun r => decide (maxId t.rows < r.id)) = [] := by
+      rw [List.filter_eq_nil_iff]
+      intro r hr
+      have := le_maxId hr
+      simp; omega
+    have f2 : new.filter (fun r => decide (maxId t.rows < r.id)) = new := by
+      rw [List.filter_eq_self]
+      intro r hr
+      simpa using n1 r hr
+    rw [f1, f2, List.nil_append, List.map_append]
+    have hl : (abs t).rows.length
+        = (t.rows.map (res (internAll t.strings (batch.flatMap Entry.urlStrings)))).length := by
+      simp [abs]
+    rw [hl, List.drop_left, List.map_map]
+    apply filterMap_eq_map
+    intro r hr
+    have hr' : r ∈ batch.foldl (insertRow (internAll t.strings (batch.flatMap Entry.urlStrings)))
+        t.rows := by rw [e1]; exact List.mem_append_right _ hr
+    simpa [strOf] using res_url (k1.rowOk hr')
+  rw [hadded]
+  cases hp : (((batch.foldl (sInsert ((abs t).emptyKnown || batch.any (fun e => e.url == [])))
+      (abs t).rows).drop (abs t).rows.length).map (·.url)).mapM (parseOf batch) with
+  | none => exact ⟨rfl, rfl, h⟩
+  | some hs =>
+    refine ⟨?_, rfl, k1⟩
+    simp only [abs, a1, hek]
+
 end Wpull.Table
